@@ -728,6 +728,13 @@ func projectName(details *types.ConfigDetails, opts *Options) error {
 	// in any of the config files
 	var pjNameFromConfigFile string
 	for _, configFile := range details.ConfigFiles {
+		if configFile.Config != nil {
+			// an already parsed document: its name is there to read
+			if name, ok := configFile.Config["name"].(string); ok && name != "" {
+				pjNameFromConfigFile = name
+			}
+			continue
+		}
 		content := configFile.Content
 		if content == nil {
 			// This can be hit when Filename is set but Content is not. One
